@@ -6,6 +6,10 @@ package main
 // loaded Epoch, from a local file and through a ReaderAt (HTTP on loopback), and compares with the
 // generator's ground truth. The recorded offsets, the value codec and the block-time file format are
 // written as Coq cases for the model.
+// The slices a fetch returns are kept (not copied) and compared again after later fetches - sequentially for every
+// object and from four goroutines fetching at the same time (vc01Held, vc01HeldConcurrent): "the bytes returned are
+// exactly that object's bytes" is about the returned value, which must not change under the caller
+// (signature returned-bytes-changed-after-later-fetch:<file|readerat-eof|readerat>).
 
 import (
 	"bytes"
@@ -16,7 +20,9 @@ import (
 	"net/http"
 	"os"
 	"path/filepath"
+	"runtime"
 	"strings"
+	"sync"
 	"testing"
 
 	"github.com/gagliardetto/solana-go"
@@ -238,6 +244,12 @@ func vc01OneEpoch(t *testing.T, rep *vh.Report, cases *vh.CasesFile, tr *vfxTrut
 		if name == vc01BigName && (mode == "readerat") {
 			stride = vc01BigStride
 		}
+		// The slices returned by the fetches are KEPT (not copied): "the bytes returned are exactly that object's bytes"
+		// is a statement about the returned value, so it must still hold after later fetches. Each result is compared at
+		// once, the previous result again after the next fetch, everything held so far eight times on the way and once
+		// more after the last fetch (and after the second round of fetches below).
+		held := &vc01Held{car: car, tr: tr}
+		every := len(tr.Objects)/stride/8 + 1
 		for i, o := range tr.Objects {
 			if i%stride != 0 {
 				continue
@@ -249,8 +261,15 @@ func vc01OneEpoch(t *testing.T, rep *vh.Report, cases *vh.CasesFile, tr *vfxTrut
 				rep.Fail("object-not-fetched:"+mode, fmt.Sprintf("%s object #%d: %v", name, i, err), replay)
 			} else if !bytes.Equal(got, want) {
 				rep.Fail("object-bytes-differ:"+mode, fmt.Sprintf("%s object #%d: got %d bytes, want %d", name, i, len(got), len(want)), replay)
+			} else {
+				held.recheckLast("after the next fetch")
+				held.add(i, got)
+				if len(held.items)%every == 0 {
+					held.recheckAll(fmt.Sprintf("after %d fetches", len(held.items)))
+				}
 			}
 		}
+		held.recheckAll("after the last fetch of the first round")
 		for bi, b := range tr.Blocks {
 			if bi%stride != 0 {
 				continue
@@ -290,8 +309,38 @@ func vc01OneEpoch(t *testing.T, rep *vh.Report, cases *vh.CasesFile, tr *vfxTrut
 				rep.Fail("object-not-fetched-again:"+mode, fmt.Sprintf("%s object #%d (second fetch): %v", name, i, err), replay)
 			} else if !bytes.Equal(got, want) {
 				rep.Fail("object-bytes-differ-on-second-fetch:"+mode, fmt.Sprintf("%s object #%d: got %d bytes, want %d", name, i, len(got), len(want)), replay)
+			} else {
+				held.recheckLast("after the next fetch (second round)")
+				held.add(i, got)
 			}
 			rep.Count("second-fetch:" + mode)
+		}
+		held.recheckAll("after the last fetch of the second round")
+		rep.CountN("returned-slices-held-and-rechecked:"+mode, len(held.items))
+		// several goroutines fetch different objects (by CID and by the recorded offset and size) and keep what they got
+		concStride := 1
+		if name == vc01BigName && mode == "readerat" {
+			concStride = vc01BigStride // one HTTP range request per object
+		}
+		conc := vc01HeldConcurrent(ep, tr, car, concStride)
+		rep.CountN("returned-slices-held-and-rechecked:concurrent:"+mode, conc.fetched)
+		for _, e := range conc.errs {
+			rep.Fail("object-not-fetched:concurrent:"+mode, name+" "+e, replay)
+		}
+		if held.nChanged > 0 || conc.nChanged > 0 {
+			rep.CountN("held-slices-found-changed:sequential:"+mode, held.nChanged)
+			rep.CountN("held-slices-found-changed:concurrent:"+mode, conc.nChanged)
+		}
+		held.changed = append(held.changed, conc.changed...)
+		held.nChanged += conc.nChanged
+		if held.nChanged > 0 {
+			n := len(held.changed)
+			if n > 4 {
+				n = 4
+			}
+			rep.Fail("returned-bytes-changed-after-later-fetch:"+mode,
+				fmt.Sprintf("%s: %d re-checks of slices returned by Epoch.GetNodeByCid / GetNodeByOffsetAndSize found them no longer equal to the archived bytes of the object they were returned for (they were equal when returned); first: %s",
+					name, held.nChanged, strings.Join(held.changed[:n], " | ")), replay)
 		}
 		ep.Close()
 	}
@@ -299,6 +348,171 @@ func vc01OneEpoch(t *testing.T, rep *vh.Report, cases *vh.CasesFile, tr *vfxTrut
 		rep.Sample(map[string]interface{}{"epoch": tr.Spec.Epoch, "header_len": tr.HeaderLen, "objects": len(tr.Objects), "blocks": len(tr.Blocks),
 			"first_objects": tr.Objects[:3], "spec": tr.Spec})
 	}
+}
+
+// ---------------------------------------------------------------- returned slices are kept and looked at again
+
+type vc01HeldItem struct {
+	idx int // index into tr.Objects
+	got []byte
+}
+
+// vc01Held keeps the slices a fetch returned (the slices themselves, no copies) and compares them again later with the
+// archived bytes of the object they were returned for.
+type vc01Held struct {
+	car      []byte
+	tr       *vfxTruth
+	items    []vc01HeldItem
+	bad      map[int]bool // positions in items already reported
+	changed  []string     // the first few findings
+	nChanged int
+}
+
+func (h *vc01Held) add(idx int, got []byte) { h.items = append(h.items, vc01HeldItem{idx, got}) }
+
+func (h *vc01Held) check(pos int, when string) {
+	it := h.items[pos]
+	o := h.tr.Objects[it.idx]
+	want := h.car[o.Offset+o.SecLen-vc01DataLen(h.car, o) : o.Offset+o.SecLen]
+	if bytes.Equal(it.got, want) || h.bad[pos] {
+		return
+	}
+	if h.bad == nil {
+		h.bad = map[int]bool{}
+	}
+	h.bad[pos] = true
+	h.nChanged++
+	if len(h.changed) < 8 {
+		h.changed = append(h.changed, fmt.Sprintf("object #%d (cid %s, %d bytes at offset %d) %s: %s", it.idx, vfxCidFromHex(o.Cid), len(want), o.Offset, when, vc01DescribeBytes(h.car, h.tr, it.got)))
+	}
+}
+
+func (h *vc01Held) recheckLast(when string) {
+	if n := len(h.items); n > 0 {
+		h.check(n-1, when)
+	}
+}
+
+func (h *vc01Held) recheckAll(when string) {
+	for pos := range h.items {
+		h.check(pos, when)
+	}
+}
+
+// vc01DescribeBytes says what a changed slice holds now, as far as that is easy to tell (a piece of another section).
+func vc01DescribeBytes(car []byte, tr *vfxTruth, got []byte) string {
+	n := len(got)
+	if n > 24 {
+		n = 24
+	}
+	if n >= 8 {
+		if at := bytes.Index(car, got[:n]); at >= 0 {
+			for j, o := range tr.Objects {
+				if uint64(at) >= o.Offset && uint64(at) < o.Offset+o.SecLen {
+					return fmt.Sprintf("the slice now starts with bytes of the section of object #%d (CAR offset %d)", j, at)
+				}
+			}
+		}
+	}
+	return fmt.Sprintf("the slice now starts with %x", got[:n])
+}
+
+type vc01ConcResult struct {
+	fetched  int
+	nChanged int
+	changed  []string
+	errs     []string
+}
+
+// vc01HeldConcurrent: four goroutines fetch different objects of the epoch through the same Epoch (alternately by CID and
+// by the recorded offset and size, as the address-index fetcher does), compare each result at once, keep the returned
+// slices and look at the ones they hold again after further fetches (their own and the other goroutines') and after
+// yielding the processor; everything is compared once more when all goroutines are done. Bytes that were right when they
+// were returned must stay right: nothing here depends on the schedule for its verdict.
+func vc01HeldConcurrent(ep *Epoch, tr *vfxTruth, car []byte, stride int) vc01ConcResult {
+	const workers = 4
+	ctx := context.Background()
+	var sel []int
+	for i := range tr.Objects {
+		if i%stride == 0 {
+			sel = append(sel, i)
+		}
+	}
+	if len(sel) > 6000 { // the large epoch: an evenly spread sample
+		step := len(sel)/6000 + 1
+		var s2 []int
+		for k := 0; k < len(sel); k += step {
+			s2 = append(s2, sel[k])
+		}
+		sel = s2
+	}
+	helds := make([]*vc01Held, workers)
+	errs := make([][]string, workers)
+	start := make(chan struct{})
+	var wg sync.WaitGroup
+	for w := 0; w < workers; w++ {
+		w := w
+		helds[w] = &vc01Held{car: car, tr: tr}
+		wg.Add(1)
+		go func() {
+			defer wg.Done()
+			defer func() {
+				if r := recover(); r != nil {
+					errs[w] = append(errs[w], fmt.Sprintf("PANIC in a concurrent fetch: %v", r))
+				}
+			}()
+			h := helds[w]
+			<-start
+			for k := w; k < len(sel); k += workers {
+				i := sel[k]
+				o := tr.Objects[i]
+				c := vfxCidFromHex(o.Cid)
+				want := car[o.Offset+o.SecLen-vc01DataLen(car, o) : o.Offset+o.SecLen]
+				var got []byte
+				var err error
+				switch (k / workers) % 3 {
+				case 0:
+					got, err = ep.GetNodeByCid(ctx, c)
+				case 1:
+					got, err = ep.GetNodeByOffsetAndSize(ctx, &c, &indexes.OffsetAndSize{Offset: o.Offset, Size: o.SecLen})
+				default:
+					got, err = ep.GetNodeByOffsetAndSize(ctx, nil, &indexes.OffsetAndSize{Offset: o.Offset, Size: o.SecLen})
+				}
+				if err != nil {
+					if len(errs[w]) < 3 {
+						errs[w] = append(errs[w], fmt.Sprintf("object #%d: %v", i, err))
+					}
+					continue
+				}
+				if !bytes.Equal(got, want) {
+					if len(errs[w]) < 3 {
+						errs[w] = append(errs[w], fmt.Sprintf("object #%d: got %d bytes that differ from the %d archived ones", i, len(got), len(want)))
+					}
+					continue
+				}
+				h.add(i, got)
+				runtime.Gosched()
+				if n := len(h.items); n%3 == 0 {
+					for pos := n - 9; pos < n; pos++ {
+						if pos >= 0 {
+							h.check(pos, "while other goroutines were fetching")
+						}
+					}
+				}
+			}
+		}()
+	}
+	close(start)
+	wg.Wait()
+	var res vc01ConcResult
+	for w, h := range helds {
+		h.recheckAll("after all goroutines had finished")
+		res.fetched += len(h.items)
+		res.nChanged += h.nChanged
+		res.changed = append(res.changed, h.changed...)
+		res.errs = append(res.errs, errs[w]...)
+	}
+	return res
 }
 
 // vc01EOFReader: a conforming io.ReaderAt over a byte slice that returns io.EOF TOGETHER with a complete read whenever
